@@ -11,7 +11,7 @@ from xh.runner import Cond, run_conditions
 PLACEMENTS = ("expr4", "exprtab", "expr_mixed", "block_if", "block_for", "block_include", "filter", "first_line", "mid_expr", "mid_include", "mid_after_tag")
 
 
-ORDINARY = ("expr", "if", "for", "set_macro", "call", "filter_block", "indent", "indent_block", "strings", "include", "ws_control", "comment_raw", "join_default",
+ORDINARY = ("expr", "if", "for", "set_macro", "call", "filter_block", "indent", "indent_block", "strings", "strings2", "strings3", "include", "ws_control", "comment_raw", "join_default",
             "lineprefix_plain")
 
 
